@@ -7,7 +7,17 @@ open ObiVerif.Lcs ObiVerif.Driver
 def showLcs : Except Err (Int × Int × Int) → String
   | .ok (s, l, e) => s!"{s} {l} {e}"
   | .error .panic => "panic"
-  | .error .fuel => "fuel"
+  | .error .fuel => "layer-mismatch"
+
+/-- with endgapfree = false both layers (verbatim two-row buffer, banded matrix by rows) must agree -/
+def runLcs (a b : Seq) (e : Int) (egf : Bool) (fill : Option UInt64) : Except Err (Int × Int × Int) :=
+  match fastLCSEGFScoreByte a b e egf fill with
+  | .ok (s, l, en) =>
+    if egf then .ok (s, l, en) else
+    match bandLCS a b e with
+    | some (s', l') => if s = s' ∧ l = l' then .ok (s, l, en) else .error .fuel
+    | none => if s = -1 ∧ l = -1 then .ok (s, l, en) else .error .fuel
+  | .error e => .error e
 
 def showD1 (d : D1) : String := s!"{d.verdict} {d.pos} {d.a1.toNat} {d.a2.toNat}"
 
@@ -46,7 +56,7 @@ def run (line : String) : String :=
     match unhex a, unhex b, e.toInt?, (if fill = "n" then some none else fill.toNat?.map (fun w => some (UInt64.ofNat w))) with
     | some a, some b, some e, some fill =>
       if e < -1 ∨ (egf ≠ "0" ∧ egf ≠ "1") then "bad-op" else
-      showLcs (fastLCSEGFScoreByte a b e (egf == "1") fill)
+      showLcs (runLcs a b e (egf == "1") fill)
     | _, _, _, _ => "bad-op"
   | ["d1", a, b] =>
     match unhex a, unhex b with
@@ -58,7 +68,7 @@ def run (line : String) : String :=
       if ml > 7 ∨ e < -1 ∨ (egf ≠ "0" ∧ egf ≠ "1") then "bad-op" else
       let ws := wordsUpTo ml
       let r := ws.foldl (fun (acc : Option UInt64) b =>
-        match acc, fastLCSEGFScoreByte a b e (egf == "1") none with
+        match acc, runLcs a b e (egf == "1") none with
         | some sum, .ok (s, l, en) =>
           some ((sum * 1000003 + u64OfInt1 s * 10007 + u64OfInt1 l * 101 + u64OfInt1 en) % pmod)
         | _, _ => none) (some 0)
